@@ -22,22 +22,22 @@ pub fn extra_engines(prop: &str, thorough: bool) -> Vec<sup::EnginePlan> {
     let t = thorough;
     if matches!(prop, "C02" | "C03" | "C04" | "C07" | "C08" | "C09" | "C10" | "C11") {
         let wd = if prop == "C09" { if t { 600 } else { 120 } } else if t { 2400 } else { 600 };
-        v.push(sup::EnginePlan { engine: "sched", workers: 16, cases_per_worker: if t { 12000 } else { 1200 }, timeout_s: wd });
+        v.push(sup::EnginePlan { engine: "sched", workers: 16, cases_per_worker: if t { 12000 } else { 2500 }, timeout_s: wd });
     }
     if matches!(prop, "C02" | "C04" | "C16") {
         v.push(sup::EnginePlan { engine: "stress", workers: 4, cases_per_worker: 1, timeout_s: if t { 1800 } else { 600 } });
     }
     if t && matches!(prop, "C01" | "C03" | "C04" | "C05" | "C06" | "C07" | "C08" | "C10" | "C11" | "C12" | "C13" | "C14" | "C16") {
-        v.push(sup::EnginePlan { engine: "fuzz", workers: 12, cases_per_worker: 30000, timeout_s: 2400 });
+        v.push(sup::EnginePlan { engine: "fuzz", workers: 12, cases_per_worker: 20000, timeout_s: 2400 });
     }
     if prop == "C17" {
-        v.push(sup::EnginePlan { engine: "cfg", workers: 16, cases_per_worker: if t { 6000 } else { 700 }, timeout_s: if t { 1500 } else { 400 } });
+        v.push(sup::EnginePlan { engine: "cfg", workers: 16, cases_per_worker: if t { 6000 } else { 2000 }, timeout_s: if t { 1500 } else { 400 } });
     }
     if prop == "C08" {
-        v.push(sup::EnginePlan { engine: "deque", workers: 16, cases_per_worker: if t { 20000 } else { 2500 }, timeout_s: if t { 1500 } else { 400 } });
+        v.push(sup::EnginePlan { engine: "deque", workers: 16, cases_per_worker: if t { 20000 } else { 5000 }, timeout_s: if t { 1500 } else { 400 } });
     }
     if prop == "C14" || prop == "C08" {
-        v.push(sup::EnginePlan { engine: "sketch", workers: 16, cases_per_worker: if t { 1500 } else { 150 }, timeout_s: if t { 1500 } else { 400 } });
+        v.push(sup::EnginePlan { engine: "sketch", workers: 16, cases_per_worker: if t { 1500 } else { 300 }, timeout_s: if t { 1500 } else { 400 } });
     }
     v
 }
